@@ -253,31 +253,45 @@ pub struct Connected {
 /// Mirror of Connector::connect after the X.224 negotiation (which needs real TLS): MCS connect, client info /
 /// licence, global channel. Returns the connected client or the error / panic of the failing step.
 pub fn mem_connect(cfg: &ClientCfg, duplex: Duplex, selected: u32) -> (Res<Connected>, &'static str) {
+    let (r, step, _) = mem_connect_stats(cfg, duplex, selected);
+    (r, step)
+}
+
+/// like `mem_connect`, also returning what the client code allocated on the way (sum of the totals, largest single request)
+pub fn mem_connect_stats(cfg: &ClientCfg, duplex: Duplex, selected: u32) -> (Res<Connected>, &'static str, engine::guard::AllocStats) {
+    let mut acc = engine::guard::AllocStats { total: 0, max_single: 0 };
+    let mut add = |st: &engine::guard::AllocStats| {
+        acc.total += st.total;
+        acc.max_single = acc.max_single.max(st.max_single);
+    };
     let tp = tpkt::Client::new(Link::new(Stream::Raw(duplex)));
     let proto = if selected == 2 { x224::Protocols::ProtocolHybrid } else { x224::Protocols::ProtocolSSL };
     let x = x224::Client::from_transport(tp, proto);
     let mut m = mcs::Client::new(x);
     let (name, w, h, layout) = (cfg.name.clone(), cfg.width, cfg.height, cfg.layout());
-    let (r, _) = call(|| m.connect(name, w, h, layout));
+    let (r, st) = call(|| m.connect(name, w, h, layout));
+    add(&st);
     match r {
         Res::Ok(()) => {}
-        Res::Err(e) => return (Res::Err(e), "mcs.connect"),
-        Res::Panic(p) => return (Res::Panic(p), "mcs.connect"),
+        Res::Err(e) => return (Res::Err(e), "mcs.connect", acc),
+        Res::Panic(p) => return (Res::Panic(p), "mcs.connect", acc),
     }
     let empty = String::new();
     let (d, u, p) = if cfg.restricted_admin { (&empty, &empty, &empty) } else { (&cfg.domain, &cfg.user, &cfg.password) };
     let auto = cfg.auto_logon;
-    let (r, _) = call(|| sec::connect(&mut m, d, u, p, auto));
+    let (r, st) = call(|| sec::connect(&mut m, d, u, p, auto));
+    add(&st);
     match r {
         Res::Ok(()) => {}
-        Res::Err(e) => return (Res::Err(e), "sec.connect"),
-        Res::Panic(p) => return (Res::Panic(p), "sec.connect"),
+        Res::Err(e) => return (Res::Err(e), "sec.connect", acc),
+        Res::Panic(p) => return (Res::Panic(p), "sec.connect", acc),
     }
-    let (r, _) = call(|| Ok(global::Client::new(m.get_user_id(), m.get_global_channel_id(), w, h, layout, &cfg.name)));
+    let (r, st) = call(|| Ok(global::Client::new(m.get_user_id(), m.get_global_channel_id(), w, h, layout, &cfg.name)));
+    add(&st);
     match r {
-        Res::Ok(g) => (Res::Ok(Connected { client: RdpClient::from_layers(m, g) }), "connected"),
-        Res::Err(e) => (Res::Err(e), "global.new"),
-        Res::Panic(p) => (Res::Panic(p), "global.new"),
+        Res::Ok(g) => (Res::Ok(Connected { client: RdpClient::from_layers(m, g) }), "connected", acc),
+        Res::Err(e) => (Res::Err(e), "global.new", acc),
+        Res::Panic(p) => (Res::Panic(p), "global.new", acc),
     }
 }
 
